@@ -472,6 +472,104 @@ class Func:
 				dq.append(s)
 		return None
 
+	def bool_flag_locals(self):
+		"""bool locals that are assigned a constant somewhere (short-circuit `a && b`, `match .. => false`)"""
+		if not hasattr(self, '_bfl'):
+			out = set()
+			for b in self.blocks:
+				for s in b['s']:
+					if len(s[1]) == 1 and s[2][0] == 'use' and s[2][1][0] == 'k' and isinstance(s[2][1][1], dict) and s[2][1][1].get('ty') == 'bool':
+						out.add(s[1][0])
+			self._bfl = out
+		return self._bfl
+
+	def flags_near(self, blocks, depth=8):
+		"""bool flag locals with a definition within `depth` blocks downstream of any of `blocks` (the short-circuit temporaries a
+		decision at one of these blocks feeds)"""
+		fl = self.bool_flag_locals()
+		out = set()
+		frontier = set(blocks)
+		seen = set(frontier)
+		for _ in range(depth):
+			nxt = set()
+			for b in frontier:
+				for s in self.blocks[b]['s']:
+					if len(s[1]) == 1 and s[1][0] in fl:
+						out.add(s[1][0])
+				for n in self.succ(b):
+					if n not in seen:
+						seen.add(n)
+						nxt.add(n)
+			frontier = nxt
+		return out
+
+	def reach_bool(self, starts, removed_edges=(), removed_blocks=(), track=None, target=None):
+		"""like reach(), refined by constant propagation of bool flag locals: after `x = const b` a `switchInt(x)` follows
+		only the edge b selects. A value is forgotten when x is reassigned a non-constant and after the switch that consumed it
+		(keeps the product small; forgetting only adds paths, so a 'not reachable' answer stays sound)."""
+		removed_edges = set(removed_edges)
+		removed_blocks = set(removed_blocks)
+		track = self.bool_flag_locals() if track is None else set(track)
+		max_states = 400000
+		seen = set()
+		blocks_seen = set()
+		st = [(s, frozenset()) for s in starts if s not in removed_blocks]
+		prev = {x: None for x in st} if target is not None else None
+		while st:
+			state = st.pop()
+			if state in seen:
+				continue
+			seen.add(state)
+			if target is not None and state[0] == target:
+				out = []
+				x = state
+				while x is not None:
+					out.append(x[0])
+					x = prev[x]
+				return out[::-1]
+			if len(seen) > max_states:
+				raise AnchorMissing('reach_bool: state space of %s exceeds %d states (track fewer flag locals)' % (self.name, max_states))
+			b, val = state
+			blocks_seen.add(b)
+			v = dict(val)
+			for s in self.blocks[b]['s']:
+				dst = s[1]
+				rv = s[2]
+				if len(dst) == 1 and rv[0] == 'use' and rv[1][0] in ('c', 'm') and len(rv[1][1]) == 1 and rv[1][1][0] in v:
+					# copy of a known flag into a temporary (`switchInt(move _t)` with `_t = copy flag`)
+					v[dst[0]] = v[rv[1][1][0]]
+				elif len(dst) == 1 and dst[0] in track:
+					if rv[0] == 'use' and rv[1][0] == 'k' and isinstance(rv[1][1], dict) and rv[1][1].get('ty') == 'bool':
+						v[dst[0]] = 1 if rv[1][1].get('v') else 0
+					else:
+						v.pop(dst[0], None)
+				elif len(dst) == 1 and dst[0] in v:
+					v.pop(dst[0], None)
+				elif dst and dst[0] in v and len(dst) > 1:
+					v.pop(dst[0], None)
+			t = self.blocks[b]['t']
+			succs = self.succ(b)
+			if t[1] == 'call':
+				d = t[2].get('dest')
+				if d and d[0] in v:
+					v.pop(d[0], None)
+			if t[1] == 'switch' and t[2][0] in ('c', 'm') and len(t[2][1]) == 1 and t[2][1][0] in v:
+				x = t[2][1][0]
+				val_x = v.pop(x)
+				vals = {vv: tb for vv, tb in t[3]}
+				succs = [vals.get(val_x, t[4])]
+			nv = frozenset(v.items())
+			for s in succs:
+				if (b, s) in removed_edges or s in removed_blocks:
+					continue
+				if (s, nv) not in seen:
+					st.append((s, nv))
+					if prev is not None and (s, nv) not in prev:
+						prev[(s, nv)] = state
+		if target is not None:
+			return None
+		return blocks_seen
+
 	def path_lines(self, path):
 		out = []
 		for b in path:
@@ -2057,6 +2155,77 @@ def P_accum_returned(facts, rule, fn, expect_names=None, min_instances=1):
 			b, p = lost[0]
 			msg = '%s: an exit (line %s) returns something else in position %d of the result although entries may already have been added (path through lines %s) - they are silently dropped' % (short, fu.line_of(b), pos, fu.path_lines(p)[:8])
 		out.append(Result(rule, ok, ('ok:' if ok else 'dropped:') + 'accumulated-returned@%s:%d' % (short, pos), msg, n_good + len(lost), where=facts.where(fu.name, fu.line_of(lost[0][0]) if lost else None)))
+	return out
+
+def variant_return_table(facts, fn, adt, self_place=(1, '*')):
+	"""for an accessor `fn(&self) -> T { match self { V1(..) => e1, .. } }`: {variant: [expr of each value assigned to _0 in that arm]}.
+	The arm of a variant is what is reachable from its switch target; the switch is the one on the discriminant of *self."""
+	fu = facts.func(fn)
+	variants = enum_variants(facts, adt)
+	sw = variant_switch_edges(fu, lambda pl: tuple(pl) == tuple(self_place), variants)
+	if not sw:
+		raise AnchorMissing('%s: no match on self found' % fn)
+	bj, m, other = sw[0]
+	ex = Expr(fu)
+	out = {}
+	for v in variants:
+		tgt = m.get(v, other)
+		if tgt is None:
+			continue
+		blocks = fu.reach([tgt], removed_blocks=[bj])
+		vals = []
+		for d in fu.defs.get(0, []):
+			bi, si, pl, rv = d
+			if bi not in blocks or len(pl) != 1:
+				continue
+			if si == 'T':
+				ci = fu.blocks[bi]['t'][2]
+				vals.append(('call', norm(ci.get('f') or '') , [ex.of_operand(a) for a in ci['args']], norm(ci['t']) if ci.get('t') else None))
+			else:
+				vals.append(ex.of_rvalue(fu.blocks[bi]['s'][si][2]))
+		out[v] = vals
+	return out
+
+def accumulator_inputs(fu, local):
+	"""field names (owner-qualified `Owner.field`) read by the right-hand sides of every definition of `local`
+	(what a running total is made of); the local itself is skipped. Call terminators defining it contribute their arguments."""
+	ex = Expr(fu, max_depth=12)
+	out = set()
+	def walk(e, depth=0):
+		if depth > 14 or not isinstance(e, tuple):
+			return
+		k = e[0]
+		if k == 'local':
+			return
+		if k == 'field':
+			if not (isinstance(e[1], tuple) and e[1][0] == 'downcast') and not str(e[2]).isdigit():
+				out.add('%s.%s' % ((e[3] or '?').rsplit('::', 1)[-1], e[2]))
+			walk(e[1], depth + 1)
+			return
+		for x in e[1:]:
+			if isinstance(x, tuple):
+				walk(x, depth + 1)
+			elif isinstance(x, list):
+				for y in x:
+					if isinstance(y, tuple):
+						walk(y, depth + 1)
+	for d in fu.defs.get(local, []):
+		b, si = d[0], d[1]
+		if si == 'T':
+			ci = fu.blocks[b]['t'][2]
+			for a in ci['args']:
+				walk(ex.of_operand(a))
+			continue
+		rv = fu.blocks[b]['s'][si][2]
+		if rv[0] == 'bin':
+			for op in (rv[2], rv[3]):
+				if op[0] in ('c', 'm') and op[1] == [local]:
+					continue
+				walk(ex.of_operand(op))
+		elif rv[0] == 'use':
+			walk(ex.of_operand(rv[1]))
+		else:
+			walk(ex.of_rvalue(rv))
 	return out
 
 def expr_local_ids(e, out=None):
